@@ -369,6 +369,12 @@ def run_cbmc_stage(repo, unit, g, res, wd, below_variadic, t_all, extra_opts):
             # a failing built-in check located inside the specification itself is a defect of the
             # specification (undecided), never a violation of the code
             fn = o['function']
+            if r['status'] == 'FAILURE' and '.no_body.' in o['id']:
+                nb = o['id'].split('.no_body.')[-1]
+                if nb.startswith('nondet_') or nb in unit.get('external', []) or nb in g.get('external', []):
+                    o['status'] = 'SUCCESS'; res['failed'].remove(o); continue
+                res['detail'] = 'missing function body (renamed, removed or unmodelled library function): ' + nb
+                res['spec_error'] = True; o['id'] = o['id'].replace('.no_body.', '.unwind.no_body.')
             if r['status'] == 'FAILURE' and '.unwind.' in o['id']:
                 res['detail'] = 'unwinding bound too small (not a violation): %s %s' % (o['id'], o['description'])
                 res['spec_error'] = True
